@@ -537,4 +537,25 @@ theorem script_keyed_delivered (pool : Slice) (ops : List Op) (inputs : List (By
   simp only [decode_encode pool (runOps ops) hp hv hn]
   exact script_keyed ops inputs hperm hf k
 
+/-! ### Re-flash: the consuming request redirects again -/
+
+/-- `reflash_reissued`: a request that carries the flash cookie, reads the messages and redirects
+    again with messages of its own — in particular with exactly the ones it received, whose encoding
+    is byte-identical to the cookie it consumed — sees the carried messages AND answers with the new
+    cookie, not with the bare expiry of the consumed one; for every pool state and every way of
+    re-attaching. (What the next request then sees is `decode_encode` / `delivered_once` again.) -/
+theorem reflash_reissued (pool : Slice) (ms : List Msg) (mode : RelayMode) (hp : pool.len = 0)
+    (hv : ∀ m ∈ ms, m.valid) (hn : ms.length < 4294967296)
+    (hne : runOps (relayOps mode ms) ≠ []) :
+    (serveRelay pool (encode ms) mode).1 = ms ∧
+    (serveRelay pool (encode ms) mode).2.2 = some (some (encode (runOps (relayOps mode ms)))) := by
+  have hd := decode_encode pool ms hp hv hn
+  unfold serveRelay
+  rw [hd]
+  exact ⟨by simp only [serve]; exact hd, reissue_overrides_expiry pool _ _ hne⟩
+
+-- re-attaching what was received, in order, gives the very bytes of the consumed cookie — and they are issued again
+example : (serveRelay ⟨[⟨b "x", b "y", 1, true⟩], 0⟩ (encode [⟨b "ok", b "saved", 65, false⟩, ⟨b "n", b "1", 66, false⟩]) .same).2.2 =
+    some (some (encode [⟨b "ok", b "saved", 65, false⟩, ⟨b "n", b "1", 66, false⟩])) := by decide
+
 end C12
